@@ -240,3 +240,137 @@ pub fn history_exhaustive(out: &mut Out, coll: &str, keys: i64, depth: usize, ca
     }
     (n, false)
 }
+
+// ------------------------------------------------------------------------------------------------
+// segment tree: every history of up to `depth` operations over a handful of ranges
+
+#[derive(Clone, Copy, Debug, PartialEq, Eq)]
+enum S {
+    Ins(usize, i64),   // range index, lifetime (expiration = now + lifetime - 1: lifetime 1 = last visible now)
+    Query(usize, i64), // range index, items to take (-1 = all)
+    Tick,
+    Clear,
+}
+
+fn seg_apply_all(lo: i64, hi: i64, ranges: &[(i64, i64)], hist: &[S], ops_out: Option<&mut Vec<Op>>) -> Option<(usize, String, String)> {
+    use crate::seg::ref_scale;
+    let mut c = SegC::new(lo, hi)?;
+    let sc = ref_scale(lo, hi).unwrap_or(0);
+    let bucket = |x: i64| -> i64 { (x - lo) >> sc };
+    let mut vals: Vec<(i64, i64, i64, i64)> = Vec::new();
+    let mut t = 0i64;
+    let mut rec: Vec<Op> = Vec::new();
+    let mut bad = None;
+    for (i, a) in hist.iter().enumerate() {
+        match *a {
+            S::Ins(r, life) => {
+                let (x, y) = ranges[r];
+                let id = 100 * (i as i64 + 1) + r as i64;
+                let op = Op::new("insert", &[x, y, id, t + life - 1]);
+                c.apply(&op); rec.push(op);
+                vals.push((x, y, id, t + life - 1));
+            }
+            S::Query(r, take) => {
+                let (x, y) = ranges[r];
+                let op = Op::new("query", &[x, y, t, take]);
+                let o = c.apply(&op); rec.push(op);
+                let mut exp: Vec<i64> = vals.iter().filter(|v| v.3 >= t && bucket(v.0) <= bucket(y) && bucket(x) <= bucket(v.1)).map(|v| v.2).collect();
+                exp.sort();
+                let mut got: Vec<i64> = o.trim_matches(|ch| ch == '[' || ch == ']').split(',').filter(|s| !s.is_empty()).filter_map(|s| s.parse().ok()).collect();
+                got.sort();
+                let ok = if take < 0 { got == exp } else {
+                    // a partially consumed query: min(take, |expected|) distinct expected items
+                    let mut g2 = got.clone(); g2.dedup();
+                    g2.len() == got.len() && got.iter().all(|g| exp.contains(g)) && got.len() == exp.len().min(take as usize)
+                };
+                if !ok { bad = Some((i, format!("{:?}", exp), format!("{:?}", got))); }
+                if take < 0 && x == lo && y == hi {
+                    // C16: after a fully consumed whole-domain query nothing expired is stored any more
+                    let stale = c.0.verif_chunks().iter().flatten().filter(|e| (e.0.exp as i64) < t).count();
+                    if stale > 0 && bad.is_none() { bad = Some((i, "no stored copy with expiration below the query time".into(), format!("{} such copies", stale))); }
+                    vals.retain(|v| v.3 >= t);
+                }
+            }
+            S::Tick => { t += 1; }
+            S::Clear => { let op = Op::new("clear", &[]); c.apply(&op); rec.push(op); vals.clear(); }
+        }
+        if bad.is_some() { break; }
+    }
+    if let Some(o) = ops_out { *o = rec; }
+    bad
+}
+
+fn seg_dfs(lo: i64, hi: i64, ranges: &[(i64, i64)], alpha: &[S], hist: &mut Vec<S>, depth: usize, found: &Mutex<Option<Vec<S>>>, stop: &AtomicBool, count: &AtomicU64) {
+    if stop.load(Ordering::Relaxed) { return; }
+    if hist.len() == depth {
+        count.fetch_add(1, Ordering::Relaxed);
+        progress();
+        let res = std::panic::catch_unwind(|| seg_apply_all(lo, hi, ranges, hist, None));
+        if !matches!(res, Ok(None)) {
+            let mut f = found.lock().unwrap();
+            if f.is_none() { *f = Some(hist.clone()); }
+            stop.store(true, Ordering::Relaxed);
+        }
+        return;
+    }
+    let last = hist.len() + 1 == depth;
+    for &a in alpha {
+        if last && !matches!(a, S::Query(..)) { continue; }
+        if matches!(a, S::Tick) && matches!(hist.last(), Some(S::Tick)) && hist.len() >= 2 && matches!(hist[hist.len() - 2], S::Tick) { continue; }
+        hist.push(a);
+        seg_dfs(lo, hi, ranges, alpha, hist, depth, found, stop, count);
+        hist.pop();
+    }
+}
+
+/// all histories of length 1..=depth on the segment tree over `[lo, hi]`; a failing one is replayed through the
+/// ordinary `SegRunner` (C03 / C16 oracles, tie, shrinking, replay)
+pub fn seg_history_exhaustive(out: &mut Out, lo: i64, hi: i64, ranges: &[(i64, i64)], depth: usize) -> (u64, bool) {
+    let mut alpha: Vec<S> = Vec::new();
+    for r in 0..ranges.len() { alpha.push(S::Ins(r, 1)); alpha.push(S::Ins(r, 3)); }
+    for r in 0..ranges.len() { alpha.push(S::Query(r, -1)); }
+    alpha.push(S::Query(0, 1));
+    alpha.push(S::Tick);
+    alpha.push(S::Clear);
+    let count = AtomicU64::new(0);
+    let found: Mutex<Option<Vec<S>>> = Mutex::new(None);
+    for d in 1..=depth {
+        let stop = AtomicBool::new(false);
+        let mut prefixes: Vec<Vec<S>> = Vec::new();
+        for &a in &alpha { if d == 1 { prefixes.push(vec![a]); } else { for &b in &alpha { prefixes.push(vec![a, b]); } } }
+        let next = AtomicU64::new(0);
+        std::thread::scope(|sc| {
+            for _ in 0..16 {
+                sc.spawn(|| {
+                    silent_panics();
+                    loop {
+                        let i = next.fetch_add(1, Ordering::Relaxed) as usize;
+                        if i >= prefixes.len() || stop.load(Ordering::Relaxed) { break; }
+                        let mut h = prefixes[i].clone();
+                        if h.len() == d && !matches!(h[d - 1], S::Query(..)) { continue; }
+                        if h.len() > d { continue; }
+                        seg_dfs(lo, hi, ranges, &alpha, &mut h, d, &found, &stop, &count);
+                    }
+                });
+            }
+        });
+        if found.lock().unwrap().is_some() { break; }
+    }
+    let n = count.load(Ordering::Relaxed);
+    let f = found.lock().unwrap().clone();
+    if let Some(h) = f {
+        let mut ops: Vec<Op> = Vec::new();
+        let res = std::panic::catch_unwind(std::panic::AssertUnwindSafe(|| { let mut o = Vec::new(); let b = seg_apply_all(lo, hi, ranges, &h, Some(&mut o)); (o, b) }));
+        let bad = match res { Ok((o, b)) => { ops = o; b } Err(_) => None };
+        let before = out.oracle_fails;
+        let mut r = crate::seg::SegRunner::new(out, "hexh-seg", lo, hi);
+        for op in &ops { r.step(op); if r.dead { break; } }
+        if r.out.oracle_fails == before {
+            let (e, o) = match bad { Some((_, e, o)) => (e, o), None => ("an answer".into(), "panic".into()) };
+            r.fail(&["C03", "C16"], "answer along a short history (bounded-exhaustive history exploration)", &e, &o);
+        }
+        r.end();
+        return (n, true);
+    }
+    (n, false)
+}
